@@ -169,6 +169,7 @@ func runC16(c *Ctx) {
 	defer c16FallbackScope(c)
 	defer c16MatcherOnOwnLabel(c)
 	defer c16KeyIsTheText(c, "C16-R3")
+	defer c14HashIsADigest(c, "C16-R3")
 	defer c16AlertMetricNames(c, chk)
 	// (a) pointers to a providing entry are set only under a kind-specific, error-free, name-equality guard
 	pmC := parentMap(chk.Decl.Body)
